@@ -44,6 +44,7 @@ Definition sub (s : bytes) (a b : nat) : bytes := firstn (b - a) (skipn a s).
 (* validateDate: None = accepted, Some e = the error it returns *)
 Definition validate_date (s : bytes) : option string :=
   if negb (rune_count s =? 8) then Some "TagWrongLengthErr"%string
+  else if negb (is_numeric s) then Some "ErrValidDate"%string
   else
     let cc := sub s 0 2 in let yy := sub s 2 4 in let mm := sub s 4 6 in let dd := sub s 6 8 in
     if negb (is_century cc) then Some "ErrValidDate"%string
@@ -58,7 +59,7 @@ Definition uid_codes : list bytes :=
 Definition is_blank (s : bytes) : bool := match trim_space s with [] => true | _ => false end.
 
 Definition validate_uid_party_identifier (s : bytes) : bool :=
-  if rune_count s <? 7 then false
+  if rune_count s <? 6 then false
   else if negb (mem_bytes (sub s 0 4) uid_codes) then false
   else if negb (bytes_eqb (sub s 4 5) (bs "/")) then false
   else if is_blank (sub s 5 6) then false
@@ -70,7 +71,7 @@ Definition validate_party_identifier (s : bytes) : bool :=
   | _ =>
     if rune_count s <? 2 then false
     else if bytes_eqb (sub s 0 1) (bs "/") then
-      if is_blank (sub s 1 2) then false else is_alphanumeric (skipn 2 s)
+      if is_blank (sub s 1 2) then false else is_alphanumeric (skipn 1 s)
     else validate_uid_party_identifier s
   end.
 
@@ -84,7 +85,7 @@ Definition validate_option_f_line (s : bytes) : bool :=
     else if negb (mem_bytes (sub s 0 1) optf_codes) then false
     else if negb (bytes_eqb (sub s 1 2) (bs "/")) then false
     else if is_blank (sub s 2 3) then false
-    else is_alphanumeric (trim_space (skipn 2 s))
+    else is_alphanumeric (skipn 2 s)
   end.
 
 Definition validate_option_f_name (s : bytes) : bool :=
@@ -92,7 +93,7 @@ Definition validate_option_f_name (s : bytes) : bool :=
   else if negb (bytes_eqb (sub s 0 1) (bs "1")) then false
   else if negb (bytes_eqb (sub s 1 2) (bs "/")) then false
   else if is_blank (sub s 2 3) then false
-  else is_alphanumeric (trim_space (skipn 2 s)).
+  else is_alphanumeric (skipn 2 s).
 
 From WireGen Require Import Currency.
 
